@@ -64,6 +64,12 @@ CASES = {
     "precompile-empty-input": (
         {MAIN: " ".join(f"PUSH1 0x20 PUSH0 PUSH0 PUSH0 PUSH0 PUSH1 {a} GAS CALL POP" for a in (2, 3, 5)) + f" {RET}"},
         0, False, {}, ["C01"]),
+    # known finding: under symbolic (arbitrary) storage a TLOAD adds `storage_<addr>_..._00[slot] == 0` -- the base array of
+    # transient storage has the same name as the persistent one -- so inputs whose initial persistent slot is non-zero
+    # are covered by no path
+    "tload-under-symbolic-storage": (
+        {MAIN: f"PUSH0 TLOAD PUSH0 MSTORE PUSH0 SLOAD PUSH1 0x20 MSTORE {RET}"},
+        1, False, {"symbolic_storage": True, "storage_layout": "generic"}, ["C02"]),
     "call-revert-rolls-back": (
         {MAIN: f"PUSH1 0x05 PUSH1 0x01 SSTORE PUSH1 0x20 PUSH1 0x40 PUSH0 PUSH0 PUSH1 0x03 PUSH2 0x2000 PUSH2 0xffff CALL PUSH0 MSTORE PUSH1 0x40 MLOAD PUSH1 0x20 MSTORE PUSH2 0x2000 BALANCE PUSH1 0x60 MSTORE PUSH1 0x01 SLOAD PUSH1 0x80 MSTORE {RET}",
          0x2000: "PUSH1 0x09 PUSH1 0x01 SSTORE CALLVALUE PUSH0 MSTORE PUSH1 0x20 PUSH0 REVERT"}, 1, False, {}, ["C09", "C01"]),
